@@ -302,6 +302,9 @@ func (c *AsyncLogger) Append(e *Event) {
 // Behavior on full buffer depends on BufferFullPolicy.
 func (c *AsyncLogger) Write(b []byte) {
 	verifPoint("async.write.before")
+	// The bytes are consumed later by the worker goroutine, while io.Writer
+	// callers are free to reuse b as soon as Write returns: enqueue a copy.
+	b = append([]byte(nil), b...)
 	select {
 	case c.buf <- b:
 	default:
